@@ -228,6 +228,78 @@ def code_sharing(ctx):
                              label, log, want))
 
 
+def after_rejected_call(ctx):
+    """A call that the checker itself refuses (a keyword named like a reserved value - result, OLD, _ARGS, _KWARGS - swallowed
+    by **kwargs; a missing argument) is over when the TypeError leaves: it is no re-entry, so the next call of the same
+    callable is fully checked."""
+    import icontract
+    from vf.progmodel.run import drive
+
+    for is_async in (False, True):
+        for as_method in (False, True):
+            for misuse in ("result", "OLD", "_ARGS", "_KWARGS", "missing-argument"):
+                log = []
+
+                def pre(x):
+                    log.append("pre")
+                    return x > 0
+
+                def post(result):
+                    log.append("post")
+                    return result > 0
+
+                if is_async:
+                    @icontract.require(pre)
+                    @icontract.snapshot(lambda x: x, name="x0")
+                    @icontract.ensure(post)
+                    async def f(x, **kwargs):
+                        log.append("body")
+                        return x
+                else:
+                    @icontract.require(pre)
+                    @icontract.snapshot(lambda x: x, name="x0")
+                    @icontract.ensure(post)
+                    def f(x, **kwargs):
+                        log.append("body")
+                        return x
+                if as_method:
+                    holder = type("K", (), {"f": staticmethod(f)})()
+                    target = holder.f
+                else:
+                    target = f
+
+                def call(*a, **k):
+                    r = target(*a, **k)
+                    return drive(r) if is_async else r
+
+                try:
+                    if misuse == "missing-argument":
+                        call()
+                    else:
+                        call(1, **{misuse: 5})
+                    first = "returned"
+                except TypeError:
+                    first = "TypeError"
+                except BaseException as e:  # noqa
+                    first = type(e).__name__
+                del log[:]
+                try:
+                    call(-1)
+                    second = "returned"
+                except icontract.ViolationError:
+                    second = "violation"
+                except BaseException as e:  # noqa
+                    second = type(e).__name__
+                label = "%s %s, refused call with %s" % ("async" if is_async else "sync", "method" if as_method else "function", misuse)
+                ctx.case(["after-rejected", is_async, as_method, misuse], True, sample={"directed": label, "refused call": first,
+                                                                                      "next call": second})
+                ctx.count("directed:after-rejected-call")
+                if first != "TypeError" or second != "violation" or log != ["pre"]:
+                    ctx.fail("after-rejected-call|%s|%s" % ("async" if is_async else "sync", misuse), {"after_rejected": True},
+                             "%s: the refused call gave %s (TypeError expected); the next call with a violated precondition "
+                             "gave %s evaluating %r (violation evaluating ['pre'] expected)" % (label, first, second, log))
+
+
 def constructor_family(ctx, only=None):
     """Nested constructors: K1(K0) (and K2(K1)) whose __init__ calls super().__init__() first / last / not at all and then
     calls a public method of the object under construction, which calls another one. While the OUTER constructor runs the
@@ -327,11 +399,17 @@ def run(ctx, tier, seed, shard, nshards):
     if shard == 0:
         code_sharing(ctx)
         constructor_family(ctx)
+        after_rejected_call(ctx)
 
 
 def replay(ctx, case):
     import sys
 
+    if case.get("after_rejected"):
+        before = ctx.evaluations
+        after_rejected_call(ctx)
+        ctx.evaluations = before + 1
+        return
     if case.get("constructor_family"):
         before = ctx.evaluations
         constructor_family(ctx, only=case["constructor_family"])
